@@ -85,11 +85,11 @@ static bool grammar_matches(const GCase& g, const std::regex& re) {
 // every dump line that differs between the original and the restored pool carries a lexical value with fractional seconds
 static bool explained_by_datetime(const GCase& g, const std::string& dumpA, const std::string& dumpB) {
     if (!DEFECTS[D_DATETIME].active) return false;
-    static const std::regex base("base='xs:(time|dateTime)'");
-    static const std::regex facet("<xs:(enumeration|minInclusive|maxInclusive|minExclusive|maxExclusive) value='[^']*[0-9][0-9]:[0-9][0-9]:[0-9][0-9]\\.[0-9]");
+    static const std::regex base("base='xs:(time|dateTime|duration)'");   // duration: fractional seconds take part in comparisons since /repo "take fractional seconds into account when comparing durations"
+    static const std::regex facet("<xs:(enumeration|minInclusive|maxInclusive|minExclusive|maxExclusive) value='[^']*([0-9][0-9]:[0-9][0-9]:[0-9][0-9]\\.[0-9]|[0-9]\\.[0-9]+S')");
     const bool dbg = getenv("C16_DEBUG_PRED") != nullptr;
     if (!grammar_matches(g, base) || !grammar_matches(g, facet)) { if (dbg) fprintf(stderr, "datetime predicate: grammar does not qualify\n"); return false; }
-    static const std::regex frac("[0-9][0-9]:[0-9][0-9]:[0-9][0-9]\\.[0-9]");
+    static const std::regex frac("[0-9][0-9]:[0-9][0-9]:[0-9][0-9]\\.[0-9]|[0-9]\\.[0-9]+S\\b");
     std::vector<std::string> oa, ob;
     line_symdiff(dumpA, dumpB, oa, ob);
     if (oa.empty() && ob.empty()) return false;
